@@ -5,6 +5,8 @@ use std::fmt;
 thread_local! {
     /// a payload with this value panics in its destructor (exception-safety probes)
     static BOMB: Cell<Option<u8>> = const { Cell::new(None) };
+    /// a payload with this value panics when it is cloned (one shot)
+    static CLONE_BOMB: Cell<Option<u8>> = const { Cell::new(None) };
     static ARMED: Cell<bool> = const { Cell::new(false) };
     static LEDGER: RefCell<Vec<u8>> = const { RefCell::new(Vec::new()) };
 }
@@ -57,8 +59,17 @@ impl<'de> serde::Deserialize<'de> for Payload {
 
 impl Clone for Payload {
     fn clone(&self) -> Self {
+        if CLONE_BOMB.try_with(|b| b.get()).ok().flatten() == Some(self.0) {
+            CLONE_BOMB.with(|b| b.set(None));
+            panic!("payload clone panics");
+        }
         Payload(self.0)
     }
+}
+
+/// Arm (Some(v)) or disarm (None) the clone bomb for payload value `v` on this thread.
+pub fn set_clone_bomb(v: Option<u8>) {
+    CLONE_BOMB.with(|b| b.set(v));
 }
 
 /// Arm (Some(v)) or disarm (None) the destructor bomb for payload value `v` on this thread.
